@@ -87,13 +87,14 @@ func (e *c13Exec) outstanding() int {
 }
 
 type c13Probe struct {
-	inActive   string
-	swallow    bool
-	id         int64
-	active     int32
-	inactive   int32
-	gate       func(where string)
-	onInactive func()
+	onHandshake func()
+	inActive    string
+	swallow     bool
+	id          int64
+	active      int32
+	inactive    int32
+	gate        func(where string)
+	onInactive  func()
 }
 
 func (p *c13Probe) HandleActive(ctx netty.ActiveContext) {
@@ -104,6 +105,9 @@ func (p *c13Probe) HandleActive(ctx netty.ActiveContext) {
 	switch p.inActive {
 	case "handshake-read":
 		// a handler doing a blocking handshake read during activation: only closing the transport ends it
+		if p.onHandshake != nil {
+			p.onHandshake()
+		}
 		var b [1]byte
 		ctx.Channel().Transport().Read(b[:])
 	case "panic":
@@ -147,7 +151,7 @@ func (g c13Cfg) String() string {
 		g.listeners, g.preInject, g.preConnect, g.concInject, g.concConn, g.closeSome, g.lclose, g.gate, g.until, g.lateAsync, g.relisten)
 }
 
-var c13Gates = []string{"none", "loop-start", "in-listen", "before-accept", "child-init", "active", "client-init", "activate-during-closeall", "handshake-read-in-active", "panic-in-active"}
+var c13Gates = []string{"none", "loop-start", "in-listen", "before-accept", "child-init", "active", "client-init", "activate-during-closeall", "handshake-read-in-active", "panic-in-active", "late-activation-handshake-read"}
 
 func runC13(c *core.Ctx) {
 	total := c.Scale(1600, 30000)
@@ -184,6 +188,10 @@ func runC13(c *core.Ctx) {
 		}
 		if cfg.gate == "loop-start" || cfg.gate == "in-listen" || cfg.gate == "before-accept" {
 			cfg.preInject = 0 // nothing is accepting before Shutdown in these placements
+		}
+		if cfg.gate == "late-activation-handshake-read" {
+			cfg.listeners, cfg.preInject, cfg.preConnect, cfg.concInject, cfg.concConn = 1, 1, rng.Intn(2), 0, 0
+			cfg.closeSome, cfg.lclose, cfg.lateAsync, cfg.until = false, -1, false, "shutdownReturned"
 		}
 		if cfg.gate == "handshake-read-in-active" {
 			cfg.listeners, cfg.preInject, cfg.preConnect, cfg.concInject, cfg.concConn = 1, 1, rng.Intn(2), 0, 0
@@ -230,6 +238,14 @@ func c13Trial(c *core.Ctx, id string, cfg c13Cfg) {
 			}
 			if cfg.gate == "handshake-read-in-active" && kind == "child" {
 				p.inActive = "handshake-read"
+				p.onHandshake = func() { s.Mark("inHandshake") }
+			}
+			if cfg.gate == "late-activation-handshake-read" && kind == "child" {
+				// the connection is between accept and activation while Shutdown runs completely; it then
+				// activates, and one of its active handlers blocks in a handshake read
+				p.inActive = "handshake-read"
+				s.Mark("inChildInit")
+				wait()
 			}
 			if cfg.gate == "panic-in-active" {
 				p.inActive = "panic"
@@ -364,7 +380,7 @@ func c13Trial(c *core.Ctx, id string, cfg c13Cfg) {
 			}
 		}()
 	}
-	preGated := cfg.gate == "child-init" || cfg.gate == "active" || cfg.gate == "client-init" || cfg.gate == "handshake-read-in-active"
+	preGated := cfg.gate == "child-init" || cfg.gate == "active" || cfg.gate == "client-init" || cfg.gate == "handshake-read-in-active" || cfg.gate == "late-activation-handshake-read"
 	for k := 0; k < cfg.preInject; k++ {
 		inject(k)
 	}
@@ -399,6 +415,14 @@ func c13Trial(c *core.Ctx, id string, cfg c13Cfg) {
 		for ex.acceptLoopsSubmitted() < cfg.listeners {
 			runtime.Gosched()
 		}
+	}
+	if cfg.gate == "handshake-read-in-active" {
+		// the connection must be established (its active handler about to read) before Shutdown starts
+		s.Await("inHandshake", 1, 3*time.Second)
+	}
+	if cfg.gate == "late-activation-handshake-read" {
+		// the connection must have been accepted (and sit in its initializer) before Shutdown starts
+		s.Await("inChildInit", 1, 3*time.Second)
 	}
 	s.Mark("shutdownCalled")
 	bs.Shutdown()
@@ -451,6 +475,19 @@ func c13Trial(c *core.Ctx, id string, cfg c13Cfg) {
 		}
 	}
 	if !stable {
+		// ten seconds after Shutdown returned and every gate was opened: a transport that is still open with a
+		// Read parked in it will never be closed by anything inside the system
+		for i, t := range ts {
+			if !t.IsClosed() && t.InRead() > 0 {
+				key := "C13:channel-left-open"
+				if cfg.gate == "late-activation-handshake-read" {
+					key = "C13:channel-activated-after-shutdown-blocks-in-active-and-is-never-closed"
+				}
+				c.Violation(key, id, fmt.Sprintf("transport #%d is still open 10 s after Shutdown returned, with a Read parked in it (an active handler's handshake read or the read loop): the channel was never closed ["+cfg.String()+"]", i), nil)
+				cleanup()
+				return
+			}
+		}
 		c.Inconclusive(id, fmt.Sprintf("watchdog: no stable state (outstanding=%d parkedOpen=%d) %s", ex.outstanding(), parkedOpen, cfg))
 		cleanup()
 		return
